@@ -42,6 +42,9 @@ type verifMonitor struct {
 	failed  [4]bool
 	outSeen [4][4]bool // outSeen[j][i]: when j started it saw i's result value
 	order   []int
+	initErr bool // flow.New already recorded an error (cycle check)
+	source  string
+	lists   [4]bool // task i fills out: ["n"] instead of a string
 }
 
 func verifTaskName(i int) string { return "t" + string([]byte{byte('0' + i)}) }
@@ -62,7 +65,11 @@ func verifWorkflowSource(m *verifMonitor) string {
 
 func verifRunWorkflow(m *verifMonitor) (*Controller, error) {
 	ctx := (*verifcue.Context)(verifruntime.New())
-	v := ctx.CompileString(verifWorkflowSource(m))
+	src := m.source
+	if src == "" {
+		src = verifWorkflowSource(m)
+	}
+	v := ctx.CompileString(src)
 	verifAssert(v.Err() == nil, "A18.0-workflow-compiles")
 	idPath := verifcue.MakePath(verifcue.Str("$id"))
 	idxPath := verifcue.MakePath(verifcue.Str("idx"))
@@ -87,16 +94,21 @@ func verifRunWorkflow(m *verifMonitor) (*Controller, error) {
 				m.failed[i] = true
 				return &verifTaskErr{}
 			}
-			// result: out: "done-ti"
+			// result: out: "done-ti"   (or out: ["n"] for a list-producing task)
+			var out verifadt.Expr = &verifadt.String{Str: "done-" + verifTaskName(i)}
+			if m.lists[i] {
+				out = &verifadt.ListLit{Elems: []verifadt.Elem{&verifadt.String{Str: "n"}}}
+			}
 			t.update = &verifadt.StructLit{Decls: []verifadt.Decl{&verifadt.Field{
 				Label: t.c.opCtx.StringLabel("out"),
-				Value: &verifadt.String{Str: "done-" + verifTaskName(i)},
+				Value: out,
 			}}}
 			m.ended[i] = true
 			return nil
 		}), nil
 	}
 	c := New(&Config{}, v, taskFunc)
+	m.initErr = c.errs != nil
 	err := c.Run(verifcontext.Background())
 	return c, err
 }
@@ -206,9 +218,13 @@ func verifHarnessFlowCycles() {
 	}
 	_, err := verifRunWorkflow(m)
 	verifReach("ran")
+	verifAssert(m.initErr == cyclic, "A18.1-cycle-detected-at-initialisation-iff-cyclic")
 	if cyclic {
 		verifReach("cyclic")
 		verifAssert(err != nil, "A18.1-cycle-is-an-error")
+		for i := 0; i < n; i++ {
+			verifAssert(m.started[i] == 0, "A18.1-nothing-runs-in-a-cyclic-workflow")
+		}
 		for i := 0; i < n; i++ {
 			if reach[i][i] {
 				verifAssert(m.started[i] == 0, "A18.1-task-on-a-cycle-never-starts")
@@ -220,4 +236,34 @@ func verifHarnessFlowCycles() {
 			verifAssert(m.started[i] == 1, "A18.1-acyclic-all-run-once")
 		}
 	}
+}
+
+
+// a task that only appears during the run: t0 produces a list, a comprehension
+// over it generates task t2, which references t1. Whatever the completion order
+// of t0 and t1, t2 runs exactly once, after t1, with t1's result visible.
+func verifHarnessFlowLateTask() {
+	m := &verifMonitor{n: 3}
+	m.lists[0] = true
+	m.dep[2][1] = true
+	m.source = `
+t0: {$id: "task", idx: 0, out: [...string]}
+t1: {$id: "task", idx: 1, out: string}
+gen: {
+	for k in t0.out {
+		(k): {$id: "task", idx: 2, in1: t1.out, out: string}
+	}
+}
+`
+	_, err := verifRunWorkflow(m)
+	verifReach("ran")
+	verifAssert(err == nil, "A18.3-late-task-workflow-completes")
+	verifAssert(m.started[0] == 1 && m.started[1] == 1, "A18.3-initial-tasks-run-once")
+	verifAssert(m.started[2] == 1, "A18.3-late-task-runs-exactly-once")
+	verifAssert(m.outSeen[2][1], "A18.3-late-task-sees-its-dependency-result")
+	pos := [4]int{-1, -1, -1, -1}
+	for k, i := range m.order {
+		pos[i] = k
+	}
+	verifAssert(pos[1] < pos[2] && pos[0] < pos[2], "A18.3-late-task-runs-after-producer-and-dependency")
 }
